@@ -377,6 +377,8 @@ def empirical(draw, tier):
     # long chains (k up to 200) are drawn together with strong couplings: slowly mixing kernels, whose k-step law from a fixed start still
     # differs from the law after 16 or 32 steps
     sc = draw(gen.state_case(n=(1, 4), nh=(1, 4), na=(1, 3), scales=[0.5, 2.0], bound=40.0)) if k <= 3 else draw(gen.state_case(n=(2, 4), nh=(1, 2), na=(1, 2), scales=[2.0, 4.0, 6.0], bound=40.0))
+    if k > 3 and draw(st.integers(0, 2)) > 0:
+        sc["am"] = draw(gen.balanced_net(sc["n"], sc["nh"], sc.get("na") if sc["type"] == "density" else None))        # two-mode, slowly mixing kernel
     return {"state": sc, "k": k, "v0": draw(st.integers(0, 2 ** sc["n"] - 1)), "torch_seed": draw(st.integers(0, 2 ** 31 - 1)),
             "m": draw(st.integers(1, 5))}
 
